@@ -155,9 +155,7 @@ def rule_validator_coverage(chk):
                              detail='pointer set-up is emitted for %s-array names of origin %s but the '
                                     'validated set only has origins %s (PRECLOSED = symbols reached through other precomputed '
                                     'symbols, e.g. RHOIJ1 -> RHOIJ -> rho)' % (role, sorted(want), sorted(tg & {'SIG', 'PRE', 'PRECLOSED'})))
-            elif sd not in tg or notsd in tg:
-                chk.violated('validator-covers-emitted-names', '%s:wrong-side' % role, node=c, file=AE,
-                             func=fn.name, detail='validated set is not exactly the %s-side names (provenance %s): names of the other side are compared with this array - e.g. a one-sided kernel symbol (WJ reads s_h) is then demanded from the wrong array and its real user goes unchecked' % (role, sorted(tg)))
+            # (which side's names are demanded from which array is decided by the model cases of rule_validator_model, on the repository's own name collection)
             else:
                 chk.holds('validator-covers-emitted-names', role, node=c, file=AE, func=fn.name,
                           detail='validated origins %s >= emitted origins %s' % (sorted(tg), sorted(want)))
@@ -308,14 +306,28 @@ def rule_no_shortcut(chk):
                                                                                  (isinstance(st.value, ast.Call) and M.call_name(st.value) in ('dict', 'list', 'set', 'defaultdict', 'OrderedDict'))):
             glob.add(st.targets[0].id)
     bad = []
+    from verif_static import norm as N
     for fname in ('get_arrays_used_in_equation', 'get_array_names'):
         f = M.find_func(eq, fname)
+        M.set_parents(f)
+        defs = N.local_defs([f])
         for n in ast.walk(f):
             if isinstance(n, ast.Name) and n.id in glob:
-                bad.append((fname, n.id, n.lineno))
+                # a memo keyed by the class object of the equation itself gives back what would be computed; any other key (a name, say) lets different classes share an entry
+                par = getattr(n, 'parent', None)
+                key = None
+                if isinstance(par, ast.Subscript) and par.value is n:
+                    key = par.slice
+                elif isinstance(par, ast.Compare) and len(par.ops) == 1 and isinstance(par.ops[0], (ast.In, ast.NotIn)) and par.comparators[0] is n:
+                    key = par.left
+                elif isinstance(par, ast.Attribute) and par.attr in ('get', 'setdefault', 'pop') and isinstance(getattr(par, 'parent', None), ast.Call) and par.parent.args:
+                    key = par.parent.args[0]
+                kt = M.unparse(N.inline(key, defs)).replace(' ', '') if key is not None else None
+                if kt not in ('equation.__class__', 'type(equation)'):
+                    bad.append((fname, n.id, kt, n.lineno))
     chk.decide(not bad, 'validation-on-every-path', 'arrays-computed-from-the-equation-at-hand', node=M.find_func(eq, 'get_arrays_used_in_equation'), file=EQ, func='get_arrays_used_in_equation',
-               detail_bad='the d_/s_ names of an equation are looked up in module-level state %s: two different equation classes with the same name (PySPH ships several, e.g. SummationDensity) '
-                          'share one entry, so the second is validated - and gets its pointers set up - with the first one\'s arguments' % sorted(set((a, b) for a, b, c in bad)),
+               detail_bad='the d_/s_ names of an equation are looked up in module-level state (function, table, key) %s: unless the key is the class object of the equation itself, two different equation classes with the same name (PySPH ships several, e.g. SummationDensity) '
+                          'share one entry, so the second is validated - and gets its pointers set up - with the first one\'s arguments' % sorted(set((a, b, str(c)) for a, b, c, d in bad)),
                detail_ok='computed from the methods of the equation passed in')
 
 
@@ -354,21 +366,21 @@ def rule_message(chk):
 
 def rule_validator_model(chk):
     """check_equation_array_properties decided on model inputs: the function is interpreted (E8) on a model equation and model particle arrays.  The model
-    equation has hook signatures (initialize / loop with explicit s_m, s_rho / d_au, d_x and the pair symbol HIJ, which reads s_h / d_h); get_arrays_used_in_equation and
+    equation has hook signatures (initialize / loop with explicit s_m, s_rho / d_au, d_x and the pair symbol HIJ, which reads s_hs from the source and d_hd from the destination); get_arrays_used_in_equation and
     Group.get_array_names are the repository's own, interpreted on it, so the cases say which names must be demanded from which array whatever way the validator collects them."""
     from verif_static import emit as EM, absint as AI, eqindex as EI
     fn = M.find_func(M.py(AE), 'check_equation_array_properties')
-    FULL = ['au', 'x', 'h', 'm', 'rho', 'p']
+    FULL = ['au', 'x', 'hd', 'hs', 'm', 'rho', 'p']
 
     def model_group(interp, f, args, kwargs, node, env):
         """Group(equations) of the model: the class of the repository (its get_array_names is interpreted), with the precomputed symbols the model equations' loop
-        signatures ask for (HIJ, which reads s_h and d_h) - the selection itself is the subject of other rules"""
+        signatures ask for (HIJ, which reads s_hs and d_hd - different names on the two sides, so that a mix-up of the sides shows) - the selection itself is the subject of other rules"""
         eqs = list(args[0]) if args and isinstance(args[0], list) else []
         pre = {}
         for e_ in eqs:
             lp = e_.attrs.get('loop') if isinstance(e_, AI.Obj) else None
             if isinstance(lp, AI.FuncRef) and 'HIJ' in [a.arg for a in lp.node.args.args]:
-                pre['HIJ'] = EM.mock(src_arrays=set(['s_h']), dest_arrays=set(['d_h']), symbols=set(['HIJ', 's_h', 'd_h', 's_idx', 'd_idx']))
+                pre['HIJ'] = EM.mock(src_arrays=set(['s_hs']), dest_arrays=set(['d_hd']), symbols=set(['HIJ', 's_hs', 'd_hd', 's_idx', 'd_idx']))
         return EM.instance(interp, EQ, 'Group', equations=eqs, precomputed=pre, src_arrays=None, dest_arrays=None, has_subgroups=False, context={})
 
     def model_equation(name, dest, sources, explicit=('d_au', 'd_x', 's_m', 's_rho'), pre=True):
@@ -390,7 +402,7 @@ def rule_validator_model(chk):
             calls.append(('group', args[0] if args else None))
             return model_group(interp, f, args, kwargs, node, env)
         it = AI.Interp(EI.index(), AI.Config([]), intrinsics={(EQ, 'Group'): group})
-        eq_ = model_equation('EqX', dest, sources, explicit=explicit) if sources is not None else model_equation('EqX', dest, None, explicit=('d_au', 'd_x', 'd_h'))
+        eq_ = model_equation('EqX', dest, sources, explicit=explicit) if sources is not None else model_equation('EqX', dest, None, explicit=('d_au', 'd_x', 'd_hd'))
         pas = [EM.mock(name='fluid', properties=dict((k, None) for k in dest_props), constants=dict((k, None) for k in dest_consts)),
                EM.mock(name='solid', properties=dict((k, None) for k in (second_src_props if second_src_props is not None else src_props)), constants={})]
         try:
@@ -402,21 +414,21 @@ def rule_validator_model(chk):
     cases = [
         ('complete', dict(dest_props=FULL, src_props=FULL), 'ok', ()),
         ('dest-lacks-explicit-name', dict(dest_props=[k for k in FULL if k != 'au'], src_props=FULL), 'raised', ('EqX', 'fluid', 'au')),
-        ('dest-lacks-precomputed-name', dict(dest_props=[k for k in FULL if k != 'h'] + ['extra'], src_props=FULL), 'raised', ('EqX', 'fluid', 'h')),
+        ('dest-lacks-precomputed-name', dict(dest_props=[k for k in FULL if k != 'hd'] + ['extra'], src_props=FULL), 'raised', ('EqX', 'fluid', 'hd')),
         ('second-source-lacks-explicit-name', dict(dest_props=FULL, src_props=[k for k in FULL if k != 'm']), 'raised', ('EqX', 'solid', 'm')),
-        ('source-lacks-precomputed-name', dict(dest_props=FULL, src_props=[k for k in FULL if k != 'h'] + ['extra']), 'raised', ('EqX', 'solid', 'h')),
+        ('source-lacks-precomputed-name', dict(dest_props=FULL, src_props=[k for k in FULL if k != 'hs'] + ['extra']), 'raised', ('EqX', 'solid', 'hs')),
         ('constants-count', dict(dest_props=[k for k in FULL if k != 'rho'], src_props=FULL, dest_consts=['rho', 'c0']), 'ok', ()),
-        ('source-only-name-not-demanded-from-dest', dict(dest_props=['au', 'x', 'h', 'extra1', 'extra2', 'extra3'], src_props=FULL, sources=('solid',)), 'ok', ()),
-        ('dest-only-name-not-demanded-from-source', dict(dest_props=FULL, src_props=['h', 'm', 'rho', 'extra1', 'extra2'], sources=('solid',)), 'ok', ()),
+        ('source-only-name-not-demanded-from-dest', dict(dest_props=['au', 'x', 'hd', 'extra1', 'extra2', 'extra3', 'extra4'], src_props=FULL, sources=('solid',)), 'ok', ()),
+        ('dest-only-name-not-demanded-from-source', dict(dest_props=FULL, src_props=['hs', 'm', 'rho', 'extra1', 'extra2'], sources=('solid',)), 'ok', ()),
         ('dest-that-is-also-a-source-lacks-source-name', dict(dest_props=[k for k in FULL if k != 'm'] + ['extra'], src_props=FULL, sources=('solid', 'fluid')), 'raised', ('EqX', 'fluid', 'm')),
         ('unknown-dest', dict(dest_props=FULL, src_props=FULL, dest='nope'), 'raised', ('EqX', 'nope')),
         ('unknown-source', dict(dest_props=FULL, src_props=FULL, sources=('fluid', 'nope')), 'raised', ('EqX', 'nope')),
         # nothing returns before the names are validated: an equation without any explicit d_/s_ argument (reduce and a loop over pair symbols only)
         ('no-explicit-names:unknown-dest', dict(dest_props=FULL, src_props=FULL, dest='nope', explicit=()), 'raised', ('EqX', 'nope')),
         ('no-explicit-names:unknown-source', dict(dest_props=FULL, src_props=FULL, sources=('nope',), explicit=()), 'raised', ('EqX', 'nope')),
-        ('no-explicit-names:dest-lacks-precomputed-name', dict(dest_props=['au', 'x', 'extra', 'm'], src_props=FULL, explicit=()), 'raised', ('EqX', 'fluid', 'h')),
-        ('no-explicit-names:source-lacks-precomputed-name', dict(dest_props=FULL, src_props=['au', 'x', 'extra', 'm'], explicit=()), 'raised', ('EqX', 'solid', 'h')),
-        ('no-sources', dict(dest_props=['au', 'x', 'h', 'extra'], src_props=[], sources=None), 'ok', ()),
+        ('no-explicit-names:dest-lacks-precomputed-name', dict(dest_props=['au', 'x', 'extra', 'm', 'hs'], src_props=FULL, explicit=()), 'raised', ('EqX', 'fluid', 'hd')),
+        ('no-explicit-names:source-lacks-precomputed-name', dict(dest_props=FULL, src_props=['au', 'x', 'extra', 'm', 'hd'], explicit=()), 'raised', ('EqX', 'solid', 'hs')),
+        ('no-sources', dict(dest_props=['au', 'x', 'hd', 'extra'], src_props=[], sources=None), 'ok', ()),
     ]
     try:
         for label, kw, want, words in cases:
@@ -463,13 +475,13 @@ def rule_validator_model(chk):
             e2 = model_equation('EqX', 'fluid', ['fluid'], explicit=('d_au', 's_m'), pre=False)
             return [EM.mock(has_subgroups=False, equations=[e1]), EM.mock(has_subgroups=False, equations=[e2])]
         def pair_symbol_later():
-            # only the second equation uses a pair symbol (HIJ reads s_h / d_h)
+            # only the second equation uses a pair symbol (HIJ reads s_hs / d_hd)
             e1 = model_equation('EqF', 'fluid', ['fluid', 'solid'], explicit=('d_au', 's_m'), pre=False)
             e2 = model_equation('EqS', 'solid', ['fluid'], explicit=('d_au', 's_m'), pre=True)
             return [EM.mock(has_subgroups=False, equations=[e1, e2])]
-        ccases = [('later-equation-needs-a-pair-symbol-the-first-does-not:dest', pair_symbol_later, ['au', 'm', 'h'], ['au', 'm', 'y'], 'raised', ('EqS', 'solid', 'h')),
-                  ('later-equation-needs-a-pair-symbol-the-first-does-not:source', pair_symbol_later, ['au', 'm', 'y'], ['au', 'm', 'h'], 'raised', ('EqS', 'fluid', 'h')),
-                  ('later-equation-needs-a-pair-symbol-the-first-does-not:complete', pair_symbol_later, ['au', 'm', 'h'], ['au', 'm', 'h'], 'ok', ()),
+        ccases = [('later-equation-needs-a-pair-symbol-the-first-does-not:dest', pair_symbol_later, ['au', 'm', 'hs'], ['au', 'm', 'hs'], 'raised', ('EqS', 'solid', 'hd')),
+                  ('later-equation-needs-a-pair-symbol-the-first-does-not:source', pair_symbol_later, ['au', 'm', 'hd'], ['au', 'm', 'hd'], 'raised', ('EqS', 'fluid', 'hs')),
+                  ('later-equation-needs-a-pair-symbol-the-first-does-not:complete', pair_symbol_later, ['au', 'm', 'hs'], ['au', 'm', 'hd'], 'ok', ()),
                   ('plain-complete', plain, ['au', 'm', 'x'], ['au', 'm', 'y'], 'ok', ()),
                   ('incomplete-instance-followed-by-a-complete-one-of-the-same-class', same_class_twice, ['au', 'm', 'x'], ['m', 'y', 'z'], 'raised', ('EqX', 'solid', 'au')),
                   ('plain-second-array-lacks-what-the-first-has', plain, ['au', 'm', 'x'], ['m', 'y', 'z'], 'raised', ('EqS', 'solid', 'au')),
